@@ -973,11 +973,11 @@ def gen_case(rng, pool):
         a, b = gv(rng, mb), gv(rng, rng.choice((mb, mb, max(8, mb // 2), 16)))
         if op in (OP_ADD, OP_SUB) and rng.chance(1, 4):      # long carry / borrow chains
             k = rng.range(1, mb)
-            a = (1 << k) - 1 - (rng.below(3) if rng.chance(1, 2) else 0)
+            # k == 1 makes 2^k - 1 - {0,1,2} negative: clamp before a is reused as b
+            a = max((1 << k) - 1 - (rng.below(3) if rng.chance(1, 2) else 0), 0)
             b = rng.choice((1, 2, (1 << rng.below(k)) | 1, a))
             if op == OP_SUB and rng.chance(1, 2):
                 a, b = (1 << k), b
-            a = max(a, 0)
         if op == OP_CMP and rng.chance(1, 3):
             b = a ^ (1 << rng.below(max(1, a.bit_length()))) if rng.chance(1, 2) else a
         ca = pick_cap(rng, max(a, b) if rng.chance(3, 4) else a)
@@ -1322,6 +1322,9 @@ def gen_case(rng, pool):
         buf = d0.to_bytes(16, "little") + d1.to_bytes(16, "little") + d2.to_bytes(16, "little")
         ops, slots = [], []
         x[0] = sub
+    for cap, v in ops:
+        if v < 0 or v.bit_length() > _roundup(cap, 8):
+            raise ValueError("generator produced an operand outside [0, 2^capacity) for %s" % OPNAME[op])
     c = Case(op, ops, slots, x, dg, buf, flags, tag.strip())
     c.patA = rng.range(2, 255)
     c.patB = c.patA
